@@ -10,10 +10,16 @@
 (*     nothing;                                                              *)
 (*   - a send (or the drop of the last sender) on a channel takes the       *)
 (*     registered waker and wakes the task.                                 *)
-(* The consumer is arbitrary user code: it polls (only when it is allowed   *)
-(* to: first poll, after an item, or after a wake-up -- a spurious poll     *)
-(* would mask a stall), drops any FnRef it holds at any time, and may drop  *)
-(* the stream early.  FnRef::drop is the done-sender.                        *)
+(* The consumer is arbitrary user code: it polls, drops any FnRef it holds   *)
+(* at any time, and may drop the stream early.  FnRef::drop is the           *)
+(* done-sender.  The stream may be polled by SEVERAL tasks (1..Tasks), each  *)
+(* with its own waker: a channel remembers the waker of the task whose       *)
+(* poll_recv found it empty LAST, a send wakes that task, and what C05       *)
+(* speaks about is the task that polled last (`cur`).  A task polls when it  *)
+(* may (first poll, after an item, after its wake-up) or, with Spurious,     *)
+(* at any time -- which is how a second task takes over.  (The liveness      *)
+(* configuration keeps Spurious off: polling without a reason would mask a   *)
+(* stall there; the stall INVARIANT is evaluated after every Pending poll.)  *)
 (***************************************************************************)
 EXTENDS Props, IStream, TLC
 
@@ -22,9 +28,12 @@ CONSTANTS
   Wrapped,        \* TRUE: stream_with_interruptible (InterruptibleStream around the poll function)
   Strategy, K, PreSig,
   DropStreamEarly,\* the consumer may drop the stream before it ended
+  Tasks,          \* number of consumer tasks that may poll the stream (1 or 2)
+  Spurious,       \* a task may poll although it was neither handed an item nor woken
   \* deliberate deviations
   DrainDone,      \* "all" (code after the fix) | "one" (as found: one done id per poll)
-  RegisterDone,   \* TRUE: poll_recv on the done channel registers the waker
+  RegisterDone,   \* "always": a poll_recv that finds the done channel empty registers the waker of the polling task;
+                  \* "never"; "stale": only if no waker is registered there yet (a remembered registration, whoever made it)
   EndEarly        \* 0; k > 0: the stream ends when fns_remaining reaches k (off-by-k)
 
 VARIABLES
@@ -33,11 +42,14 @@ VARIABLES
                   \* in which petgraph walks the children of a function: most recently added first)
   cnt, readyQ, readyTx, doneQ, doneTx, rem,
   held, dropped, yielded,
-  wDone, wReady, woken, last, streamDropped,
+  wDone, wReady,  \* the task whose waker is registered on the done / ready channel (0 = none)
+  woken,          \* set of tasks woken since their last poll
+  cur,            \* the task that polled last
+  last, streamDropped,
   is, sigChan, sigSent, afterSig, intSeen
 
 vars == <<n, E, C, es, cnt, readyQ, readyTx, doneQ, doneTx, rem, held, dropped, yielded,
-          wDone, wReady, woken, last, streamDropped, is, sigChan, sigSent, afterSig, intSeen>>
+          wDone, wReady, woken, cur, last, streamDropped, is, sigChan, sigSent, afterSig, intSeen>>
 
 Children(f) == IF Order = "fwd" THEN Succs(E, f) ELSE Preds(E, f)
 (* children of f in the order graph_structure.children(f) yields them *)
@@ -66,7 +78,7 @@ Init ==
   /\ \E p \in Perms({ f \in 1..n : cnt[f] = 0 }) : readyQ = p
   /\ readyTx = (n > 0) /\ doneTx = (n > 0) /\ doneQ = <<>> /\ rem = n
   /\ held = {} /\ dropped = {} /\ yielded = <<>>
-  /\ wDone = FALSE /\ wReady = FALSE /\ woken = FALSE /\ last = "never" /\ streamDropped = FALSE
+  /\ wDone = 0 /\ wReady = 0 /\ woken = {} /\ cur = 1 /\ last = "never" /\ streamDropped = FALSE
   /\ is = IS0 /\ sigChan = (PreSig /\ Wrapped /\ HasChannel(Strategy)) /\ sigSent = FALSE /\ afterSig = 0
   /\ intSeen = FALSE
 
@@ -87,7 +99,7 @@ DrainStep(s) ==      \* s = [cnt, readyQ, doneQ, sent (a try_send succeeded)]
       r == F[Len(kids)]
   IN [cnt |-> r.cnt, readyQ |-> r.q, doneQ |-> Tail(s.doneQ), sent |-> s.sent \/ r.q # s.readyQ]
 
-Raw ==
+Raw(t) ==
   LET s0 == [cnt |-> cnt, readyQ |-> readyQ, doneQ |-> doneQ, sent |-> FALSE]
       k  == IF DrainDone = "all" THEN Len(doneQ) ELSE Min(1, Len(doneQ))
       D[i \in 0..k] == IF i = 0 THEN s0 ELSE DrainStep(D[i-1])
@@ -95,28 +107,37 @@ Raw ==
       doneClosed == ~doneTx /\ held = {}
       \* the last poll_recv on the done channel saw an empty, open channel: Pending, waker registered.
       \* ("one" mode: the only poll_recv saw an empty queue iff it was empty to begin with)
-      wDone2 == IF RegisterDone /\ ~doneClosed /\ (DrainDone = "all" \/ doneQ = <<>>) THEN TRUE ELSE wDone
-      \* a try_send on the ready channel wakes a waker registered there (it is our own)
-      selfWake == s1.sent /\ wReady
+      emptySeen == ~doneClosed /\ (DrainDone = "all" \/ doneQ = <<>>)
+      wDone2 == IF RegisterDone = "always" /\ emptySeen THEN t
+                ELSE IF RegisterDone = "stale" /\ emptySeen /\ wDone = 0 THEN t
+                ELSE wDone
+      \* a try_send on the ready channel wakes the task whose waker is registered there
+      selfWake == s1.sent /\ wReady # 0
+      woke     == IF selfWake THEN {wReady} ELSE {}
+      wReady1  == IF selfWake THEN 0 ELSE wReady
   IN
   IF ~doneTx
   THEN [kind |-> "end", f |-> 0, cnt |-> s1.cnt, readyQ |-> s1.readyQ, doneQ |-> s1.doneQ,
-        wDone |-> wDone2, wReady |-> wReady /\ ~selfWake, woke |-> selfWake, rem |-> rem,
+        wDone |-> wDone2, wReady |-> wReady1, woke |-> woke, rem |-> rem,
         doneTx |-> doneTx, readyTx |-> readyTx]
   ELSE IF s1.readyQ # <<>>
   THEN LET f == Head(s1.readyQ)  r2 == rem - 1  fin == r2 <= EndEarly IN
        [kind |-> "item", f |-> f, cnt |-> s1.cnt, readyQ |-> Tail(s1.readyQ), doneQ |-> s1.doneQ,
-        wDone |-> wDone2, wReady |-> wReady /\ ~selfWake, woke |-> selfWake, rem |-> r2,
+        wDone |-> wDone2, wReady |-> wReady1, woke |-> woke, rem |-> r2,
         doneTx |-> ~fin, readyTx |-> readyTx /\ ~fin]
   ELSE [kind |-> "pending", f |-> 0, cnt |-> s1.cnt, readyQ |-> s1.readyQ, doneQ |-> s1.doneQ,
-        wDone |-> wDone2, wReady |-> TRUE, woke |-> selfWake, rem |-> rem,
+        wDone |-> wDone2, wReady |-> t, woke |-> woke, rem |-> rem,
         doneTx |-> doneTx, readyTx |-> readyTx]
 
-MayPoll == ~streamDropped /\ last # "end" /\ (last \in {"never", "item", "int_item", "int_none"} \/ woken)
+MayPoll(t) == /\ ~streamDropped /\ last # "end"
+              /\ \/ Spurious
+                 \/ t = cur /\ last \in {"never", "item", "int_item", "int_none"}
+                 \/ t \in woken
 
-Poll ==
-  /\ MayPoll
-  /\ LET raw == Raw
+Poll(t) ==
+  /\ MayPoll(t)
+  /\ cur' = t
+  /\ LET raw == Raw(t)
          r   == IF Wrapped THEN PollIS(Strategy, K, is, raw.kind, sigChan)
                 ELSE [is |-> is, out |-> raw.kind, polled |-> TRUE, recv |-> FALSE, act |-> FALSE, pit |-> FALSE]
      IN
@@ -127,9 +148,9 @@ Poll ==
         THEN /\ cnt' = raw.cnt /\ readyQ' = raw.readyQ /\ doneQ' = raw.doneQ /\ rem' = raw.rem
              /\ doneTx' = raw.doneTx /\ readyTx' = raw.readyTx
              /\ wDone' = raw.wDone /\ wReady' = raw.wReady
-             /\ woken' = raw.woke
+             /\ woken' = (woken \ {t}) \cup raw.woke
         ELSE /\ UNCHANGED <<cnt, readyQ, doneQ, rem, doneTx, readyTx, wDone, wReady>>
-             /\ woken' = FALSE
+             /\ woken' = woken \ {t}
      /\ IF r.out \in {"item", "int_item"}
         THEN /\ yielded' = Append(yielded, raw.f)
              /\ held' = held \cup {raw.f}
@@ -147,30 +168,30 @@ DropRef(f) ==
          closed == ~doneTx /\ held' = {}
      IN
      /\ doneQ' = IF sent THEN Append(doneQ, f) ELSE doneQ
-     /\ IF (sent \/ closed) /\ wDone /\ ~streamDropped
-        THEN woken' = TRUE /\ wDone' = FALSE
+     /\ IF (sent \/ closed) /\ wDone # 0 /\ ~streamDropped
+        THEN woken' = woken \cup {wDone} /\ wDone' = 0
         ELSE UNCHANGED <<woken, wDone>>
-  /\ UNCHANGED <<n, E, C, es, cnt, readyQ, readyTx, doneTx, rem, yielded, wReady, last, streamDropped,
+  /\ UNCHANGED <<n, E, C, es, cnt, readyQ, readyTx, doneTx, rem, yielded, wReady, cur, last, streamDropped,
                  is, sigChan, sigSent, afterSig, intSeen>>
 
 DropStream ==
   /\ DropStreamEarly /\ ~streamDropped /\ last # "end"
   /\ streamDropped' = TRUE
   /\ UNCHANGED <<n, E, C, es, cnt, readyQ, readyTx, doneQ, doneTx, rem, held, dropped, yielded, wDone, wReady, woken,
-                 last, is, sigChan, sigSent, afterSig, intSeen>>
+                 cur, last, is, sigChan, sigSent, afterSig, intSeen>>
 
 EnvSignal ==
   /\ Wrapped /\ HasChannel(Strategy) /\ ~sigSent /\ ~PreSig /\ last # "end" /\ ~streamDropped
   /\ sigSent' = TRUE /\ sigChan' = TRUE
   /\ UNCHANGED <<n, E, C, es, cnt, readyQ, readyTx, doneQ, doneTx, rem, held, dropped, yielded, wDone, wReady, woken,
-                 last, streamDropped, is, afterSig, intSeen>>
+                 cur, last, streamDropped, is, afterSig, intSeen>>
 
-Next == Poll \/ DropStream \/ EnvSignal \/ \E f \in 1..N : DropRef(f)
+Next == (\E t \in 1..Tasks : Poll(t)) \/ DropStream \/ EnvSignal \/ \E f \in 1..N : DropRef(f)
 
 Spec == Init /\ [][Next]_vars
 
 (* a consumer that polls when it may and eventually drops what it holds *)
-LiveSpec == Spec /\ WF_vars(Poll) /\ \A f \in 1..N : WF_vars(DropRef(f))
+LiveSpec == Spec /\ (\A t \in 1..Tasks : WF_vars(Poll(t))) /\ \A f \in 1..N : WF_vars(DropRef(f))
 Ends == <>(last = "end" \/ streamDropped)
 
 ---------------------------------------------------------------------------
@@ -183,12 +204,13 @@ Ob == [ n |-> n, api |-> IF Wrapped THEN "stream_int" ELSE "stream", control |->
 TypeOK == /\ \A f \in 1..n : cnt[f] \in 0..n
           /\ Len(readyQ) <= Capacity /\ Len(doneQ) <= Capacity
           /\ held \subseteq Range(yielded) /\ dropped \subseteq Range(yielded) /\ held \cap dropped = {}
+          /\ wDone \in 0..Tasks /\ wReady \in 0..Tasks /\ woken \subseteq 1..Tasks /\ cur \in 1..Tasks
 
 Inv_C01 == C01_PathExclusion(C, held)
 Inv_C02 == \A i \in DOMAIN yielded : C02_HandOut(n, C, Order, yielded[i], dropped)
 Inv_C03 == NoDup(yielded) /\ (last = "end" => C03_AtEnd(Ob))
 Inv_C05 == /\ (last = "pending" /\ ~streamDropped) =>
-                /\ C05_NoStall(n, E, Order, Range(yielded), dropped, woken)
+                /\ C05_NoStall(n, E, Order, Range(yielded), dropped, cur \in woken)
                 /\ (C05_NoPendingWhenAll(n, Range(yielded)) \/ intSeen)
            /\ (last = "end") => C05_EndOnlyWhenAll(n, Range(yielded), intSeen)
 Inv_C08 == /\ C08_AfterSignal(Ob) /\ C08_PreSignal(Ob)
